@@ -72,8 +72,13 @@ json.dump(res, open(out, "w"))
 '''
 
 
-def session_part(ctx) -> dict:
-    """spec/Session.tla: registration and shutdown handshake around the run (messages of the same acknowledged layer)."""
+SHUTDOWN_ACTIONS = ("StartShutdown", "ExecShutdown", "CtrlShutIter", "Tick", "GiveUp")
+
+
+def session_part(ctx, only_actions: tuple | None = None) -> dict:
+    """spec/Session.tla: registration and shutdown handshake around the run (messages of the same acknowledged layer).
+    only_actions: report conformance deviations only at these actions (C05 cares for the shutdown handshake: every registered
+    executor is told to stop and waited for; the registration half belongs to C06)."""
     c = {"Host": '{"h0", "h1"}', "Faults": "1", "MaxReg": "2", "ShutdownRetries": "TRUE"}
     cfg = tlc.cfg_text(spec="FairSpec", constants=c, invariants=["TypeOK", "EnvExact", "RunsWithAll", "EndedMeansGone"],
                        properties=["AllShutDown"], constraints=["NetBounded"])
@@ -81,7 +86,8 @@ def session_part(ctx) -> dict:
     r = tlc.check(d, "Session", workers=6, coverage=True, deadlock=False, timeout=1800, light=False)
     tlc.require_clean(r, "Session")
     for v in r.violated:
-        ctx.violate(f"session_model:{v}", f"TLC: {v} violated in spec/Session.tla", {"tlc": r.trace[:6000]}, clause=v)
+        if only_actions is None or v in ("EndedMeansGone", "AllShutDown", "Temporal"):
+            ctx.violate(f"session_model:{v}", f"TLC: {v} violated in spec/Session.tla", {"tlc": r.trace[:6000]}, clause=v)
     c2 = dict(c, Faults="2")
     cfg2 = tlc.cfg_text(spec="Spec", constants=c2, constraints=["NetBounded"])
     d2 = tlc.stage(ctx.scratch, "session_sim", ["Session"], {"Session.cfg": cfg2})
@@ -105,6 +111,8 @@ def session_part(ctx) -> dict:
         if "harness_error" in mm:
             raise MachineryError(f"session replay harness error: {mm}")
         fields = sorted(mm["diffs"])
+        if only_actions is not None and mm["action"][0] not in only_actions:
+            continue
         ctx.violate(f"session:{mm['action'][0]}:" + "+".join(fields),
                     f"real Bridge registration/shutdown deviates from spec/Session.tla at step {mm['step']} ({mm['action']}): {mm['diffs']}",
                     {"actions": x["actions"][: mm["step"]], "mismatch": mm}, clause="+".join(fields))
